@@ -13,6 +13,7 @@ from mc.termcheck import compare, short, tol_for
 from mc.terms import build, to_source
 
 PROPERTY = "C20"
+PAYLOAD_SEEDS = {"thorough": [0, 1, 2, 3]}  # the thorough tier repeats the whole enumeration for four payload seeds
 ASSUMPTIONS = [
     "index arrays on both axes: cola documents A[r, c] == A[r, :][:, c] (outer indexing); a returned operator is compared "
     "with D[np.ix_(r, c)], a returned vector with D[r, c]; either is accepted",
